@@ -443,7 +443,38 @@ def c18(ck, F, tier):
     guarded(ck, ra.table_io, F)
 
 
-PROPS = {"C08": c08, "C18": c18, "C32": c32, "C30": c30, "C27": c27, "C31": c31, "C33": c33, "C12": c12, "C13": c13, "C14": c14, "C15": c15, "C16": c16, "C09": c09, "C22": c22, "C34": c34, "C21": c21, "C05": c05, "C28": c28, "C10": c10, "C29": c29, "C17": c17, "C01": c01, "C02": c02, "C03": c03, "C04": c04, "C23": c23, "C26": c26}
+def c06(ck, F, tier):
+    import rules_eval as re_
+    ck.explanation = (
+        "Static decision of the finite dispatch and comparison tables only: (TABLE-ops) evaluate_node_in_context maps "
+        "OpSum::Add/Minus, OpProduct::Times/Divide and OpPower to closures whose bodies are the single float operation they "
+        "denote (Divide guarded by == 0.0 yielding #DIV/0!), unary minus to Neg and % to Div 100.0; the predicate closure of "
+        "handle_comparison, interpreted for all 6 operators x 3 signs of compare_values, is the mathematical predicate; "
+        "(TABLE-cmp) compare_values interpreted over all 25 kind pairs is antisymmetric across kinds, orders Number < String "
+        "< Boolean < Error and compares EmptyCell as the neutral element of the other kind. Coercions, function results and "
+        "error precedence with values are numerical/runtime and not decided.")
+    ck.rule("TABLE-ops", "operators evaluate by the arithmetic / predicate they denote", floor=24, exhaustive=True)
+    ck.rule("TABLE-cmp", "cross-kind comparison table: antisymmetric, ordered, empty is neutral", floor=25, exhaustive=True)
+    guarded(ck, re_.table_ops, F)
+    guarded(ck, re_.table_cmp, F)
+
+
+def c07(ck, F, tier):
+    import rules_eval as re_
+    ck.explanation = (
+        "Static decision of the two sources of nondeterminism visible in the code's shape: (WMC-volatile) wall-clock and random "
+        "sources are called only from the implementations of NOW/TODAY/RAND/RANDBETWEEN/RANDARRAY and from new-workbook "
+        "metadata; (HASH-ORDER) every iteration over a HashMap/HashSet in code reachable from evaluate, set_user_input, the six "
+        "structural actions, to_bytes and from_workbook (function implementations excluded) is order-insensitive by an "
+        "enumerated idiom (folded with any/all/count/min/max, collected into a map/set, collected into a Vec that is sorted) "
+        "or by a single-site reason confirmed on the pinned tree. Convergence of the restart-based spill ordering is not decided.")
+    ck.rule("WMC-volatile", "clock / random sources only in volatile function implementations", floor=3)
+    ck.rule("HASH-ORDER", "hash-map iterations are order-insensitive", floor=25)
+    guarded(ck, re_.wmc_volatile, F)
+    guarded(ck, re_.hash_order, F)
+
+
+PROPS = {"C08": c08, "C07": c07, "C06": c06, "C18": c18, "C32": c32, "C30": c30, "C27": c27, "C31": c31, "C33": c33, "C12": c12, "C13": c13, "C14": c14, "C15": c15, "C16": c16, "C09": c09, "C22": c22, "C34": c34, "C21": c21, "C05": c05, "C28": c28, "C10": c10, "C29": c29, "C17": c17, "C01": c01, "C02": c02, "C03": c03, "C04": c04, "C23": c23, "C26": c26}
 
 
 def run(pid, tier):
